@@ -13,7 +13,7 @@ RULE = ('A real destination agent (key store: right key / wrong key / no key; ac
         'bundle built by the independent reference source that carries one or two security blocks (BIB on the payload, on '
         'an extension block or on both in either target order, BCB on the payload or on both; their own block processing control flags drawn from {0, discard-block, delete-bundle, report, replicate}) each of which is either valid or malformed in exactly one way drawn from: '
         'unknown key id, altered MAC, first / last target altered after the operation, target altered while the original content is attached inside the COSE message, unknown security context id, target number absent from the bundle, duplicate '
-        'parameter ids, duplicate result ids, two results / zero results for a target, fewer results than targets, '
+        'parameter ids, duplicate result ids, two results / zero results for a target, fewer results than targets, a target named twice with one genuine and one forged result (either order), '
         'parameters flag clear with a parameter list present, additional protected/unprotected header maps with a '
         'duplicate key, undecodable additional headers, unknown critical COSE header, result value that is not a COSE '
         'array, wrong COSE message tag number (known other kind, unknown), abstract security block that does not decode '
@@ -35,7 +35,7 @@ MALFORMATIONS = ['none', 'wrong-kid', 'bad-tag', 'unknown-ctx', 'target-missing'
                  'zero-results', 'fewer-results', 'params-flag-clear', 'no-params-default-scope', 'addl-dup-keys',
                  'addl-undecodable', 'crit-header', 'result-not-array', 'result-garbage', 'wrong-tag-kind', 'unknown-tag',
                  'asb-garbage', 'asb-empty', 'addl-protected-ok', 'alter-target-0', 'alter-target-1', 'attached-payload',
-                 'surplus-result']
+                 'surplus-result', 'dup-target-bad-last', 'dup-target-bad-first']
 BLOCKS = ['bib-payload', 'bib-ext', 'bcb-payload', 'bib-multi', 'bib-multi-r', 'bcb-multi', 'bcb-multi-r']
 # a BIB on the payload with a BCB layered over it: the BCB covers the payload only, or (as RFC 9172 asks of a source
 # whose BIB and BCB share a target) the payload and the BIB
@@ -170,6 +170,22 @@ def malform(bundle, sec_type, mal):
         # one result list more than there are targets (RFC 9172 3.6: one per target, in the same order), holding an
         # undecodable COSE message
         asb['results'] = list(asb['results']) + [[[rid, b'\xff\x00\x01']]]
+    elif mal in ('dup-target-bad-last', 'dup-target-bad-first'):
+        # the first target is named a second time at the end of the target list, with a result list of its own; one of the
+        # two results for it is genuine, the other one forged (BIB: MAC altered; BCB: a key nobody has).  RFC 9172 3.6
+        # forbids duplicate targets; whatever a receiver makes of them, one operation of the block does not verify
+        forged = list(msg)
+        if sec_type == 11:
+            forged[-1] = bytes([forged[-1][0] ^ 0x80]) + bytes(forged[-1][1:])
+        else:
+            forged[1] = dict(forged[1])
+            forged[1][rc.HDR_KID] = b'nobody'
+        forged = [rid, cb.enc(forged)]
+        asb['targets'] = list(asb['targets']) + [asb['targets'][0]]
+        if mal == 'dup-target-bad-last':
+            asb['results'] = list(asb['results']) + [[forged]]
+        else:
+            asb['results'] = [[forged]] + list(asb['results'][1:]) + [[[rid, enc]]]
     elif mal == 'fewer-results':
         asb['targets'] = list(asb['targets']) + [2 if 2 not in asb['targets'] else 1]
     elif mal == 'params-flag-clear':
@@ -296,6 +312,9 @@ def _strict_pass(bundle, keys, sec_type, plaintexts):
             if len(set(pids)) != len(pids):
                 return False, plaintexts
             if len(asb['results']) != len(asb['targets']) or not asb['targets']:
+                return False, plaintexts
+            if len(set(asb['targets'])) != len(asb['targets']):
+                # (RFC 9172 3.6: no duplicate entries; only generated with one of the two results forged)
                 return False, plaintexts
             for results in asb['results']:
                 rids = [x[0] for x in results]
